@@ -8,6 +8,7 @@ scripted keyboard.  One run = one world + one keyboard script + one schedule.
 
 import collections
 import os
+import sys
 
 from .. import scratch, sched, session, worlds
 from ..runner import RunResult, digest_of
@@ -430,3 +431,111 @@ def run_one(tape, tier, prop):
     res.shape = tuple(tuple(e["kind"] for e in ev) for ev, _, _ in cases[:4])
     res.digest = digest_of([Ulines, [list(map(repr, s)) for s in sigs], [v.as_dict() for v in res.violations]])
     return res
+
+
+# ---------------------------------------------------------------------------
+# the real program on a real stdin pipe (validation of the keyboard seam: the scheduler scripts input(); a change that
+# reads standard input some other way -- select(), readline() on the buffer -- would walk past that seam)
+
+def _real_keyboard_case(name, writes, session_name):
+    """writes: [(delay_s, bytes)] written to a stdin pipe that stays open.  Real time is involved, so the cut point is not
+    reproducible; the verdict does not depend on it: after the quit has been written the process must end by itself, with
+    a save file, and what it wrote must be a prefix of the stream of an uninterrupted run."""
+    import subprocess
+    import threading
+    import time
+    from .. import bigworld
+    code = scratch.code_dir()
+    os.makedirs(os.path.join(code, "Rules"), exist_ok=True)
+    lnk = os.path.join(code, "Rules", "Default")
+    if not os.path.islink(lnk) and not os.path.exists(lnk):
+        try:
+            os.symlink(bigworld.shipped_dir("Default"), lnk)
+        except FileExistsError:
+            pass
+    for ext in (".sav", ".omn"):
+        p = os.path.join(code, session_name + ext)
+        if os.path.exists(p):
+            os.unlink(p)
+    argv = [sys.executable, "-W", "ignore", os.path.join(code, "pcfg_guesser.py"), "-r", "Default", "-s", session_name]
+    proc = subprocess.Popen(argv, stdin=subprocess.PIPE, stdout=subprocess.PIPE, stderr=subprocess.DEVNULL,
+                            env=dict(os.environ, PYTHONUTF8="1"))
+    chunks = []
+
+    def pump():
+        while True:
+            b = proc.stdout.read(1 << 16)
+            if not b:
+                return
+            chunks.append(b)
+    th = threading.Thread(target=pump, daemon=True)
+    th.start()
+    out = {"case": name, "problem": None, "lines": 0}
+    try:
+        for delay, data in writes:
+            time.sleep(delay)
+            try:
+                proc.stdin.write(data)
+                proc.stdin.flush()
+            except OSError:
+                break
+        try:
+            rc = proc.wait(timeout=120)
+        except subprocess.TimeoutExpired:
+            proc.kill()
+            proc.wait()
+            out["problem"] = ("explicit_quit_ignored(real process)", {"case": name, "written": repr([w for _, w in writes]),
+                                                                      "waited_s": 120})
+            return out
+        th.join(timeout=30)
+        text = b"".join(chunks)
+        lines = text.split(b"\n")[:-1]
+        out["lines"] = len(lines)
+        if rc != 0:
+            out["problem"] = ("process_failed_after_quit", {"case": name, "returncode": rc})
+            return out
+        if not os.path.exists(os.path.join(code, session_name + ".sav")):
+            out["problem"] = ("no_save_file_after_quit", {"case": name})
+            return out
+        if lines:
+            ref = subprocess.run(argv[:-2] + ["-s", session_name + "_ref", "--limit", str(len(lines))], stdin=subprocess.DEVNULL,
+                                 stdout=subprocess.PIPE, stderr=subprocess.DEVNULL, env=dict(os.environ, PYTHONUTF8="1"), timeout=600)
+            if ref.stdout != text:
+                rl = ref.stdout.split(b"\n")[:-1]
+                k = next((i for i, (a, b) in enumerate(zip(lines, rl)) if a != b), min(len(lines), len(rl)))
+                out["problem"] = ("not_a_prefix_after_quit(real process)", {"case": name, "lines": len(lines),
+                                                                            "first_difference_at_line": k})
+    finally:
+        try:
+            proc.stdin.close()
+        except OSError:
+            pass
+        for nm in (session_name, session_name + "_ref"):
+            for ext in (".sav", ".omn"):
+                p = os.path.join(code, nm + ext)
+                if os.path.exists(p):
+                    os.unlink(p)
+    return out
+
+
+def extra_phase(tier, base_seed):
+    from .. import bigworld
+    out = {"real_process_keyboard_cases": 0, "real_process_lines": 0, "violations": []}
+    if "Default" not in bigworld.available():
+        return out
+    cases = [("status_and_quit_in_one_write", [(3.0, b"\nq\n")]),
+             ("quit_alone", [(3.0, b"q\n")]),
+             ("help_status_quit_spaced", [(2.5, b"h\n"), (0.4, b"\n"), (0.4, b"q\n")]),
+             ("three_lines_in_one_write_before_start", [(0.0, b"zz\n\nq\n")])]
+    if tier == "quick":
+        cases = cases[:2]
+    jobs = [(nm, wr_, "RK%d_%d" % (base_seed % 1000, i)) for i, (nm, wr_) in enumerate(cases)]
+    for r in bigworld._fan_out(_real_keyboard_case, jobs, workers=4):
+        out["real_process_keyboard_cases"] += 1
+        out["real_process_lines"] += r["lines"]
+        if r["problem"]:
+            out["violations"].append({"seed": base_seed, "tape": [], "violation": {
+                "property": "C12", "kind": r["problem"][0], "key": None, "detail": r["problem"][1]}, "case": None})
+    import shutil
+    shutil.rmtree(os.path.join(scratch.code_dir(), "Rules"), ignore_errors=True)
+    return out
